@@ -86,6 +86,12 @@ Definition run_env_bytes (c : cfg) (data : bytes) : jv :=
   JL [ jv_outcome jv_dict (pl_environ c (view_env_bytes data));
        JC "Val" [jv_dict (spec_env (e_items (env_read data)))] ].
 
+(* a live child: the bytes the running kernel is predicted to show, model answers, demanded answers *)
+Definition run_live (c : cfg) (r : klive) : jv :=
+  JL [ JL [JB (k_cmdline (lv_cmd r)); JB (k_environ (lv_env r)); JB (k_link (lv_exe r)); JB (k_link (lv_cwd r))];
+       JL (map jv_res (run_ops c st0 (live_ops (view_live r))));
+       (if wf_live r then JL (map jv_res (spec_live r)) else jnone) ].
+
 (* the encoder *)
 Definition run_uenc (l : list Z) : jv := jopt JB (uencode l).
 
